@@ -33,6 +33,8 @@ BANNERS = [
     ("versionless", "EBBv13_and_above EB"),
     # another maker's controller that also announces a firmware version (new enough, even)
     ("foreign-versioned", "Acme Motion Controller Firmware Version 4.1.0"),
+    # ... and one whose name merely *contains* the three letters, in another capitalisation
+    ("foreign-pebble", "Pebble Firmware Version 4.3.0"),
     # a device (or an EBB with a half-typed command in its buffer) that answers with an error line
     ("error-line", "!8 Err: Unknown command 'v'"),
     # a release candidate of the minimum itself: older than the minimum
